@@ -287,6 +287,9 @@ type connSpec struct {
 	// the scripted client's offer. "" with Mode != Disabled means "mirror what
 	// the library side would agree with": the harness fills in a default.
 	Ext string
+	// Pipelined (server role): client bytes that arrive together with the handshake request and are
+	// therefore already buffered in the hijacked bufio.Reader when Accept takes the connection over.
+	Pipelined []byte
 }
 
 // libConn is a library connection plus the facts of its handshake.
@@ -313,7 +316,7 @@ func (e *env) open(spec connSpec) (*libConn, error) {
 			lc.Agreed = wsx.ParseAgreed([]string{spec.Ext})
 		}
 	} else {
-		sv, err := wsx.Accept(wsx.ServerCfg{Mode: spec.Mode, Threshold: spec.Threshold, Offer: spec.Ext})
+		sv, err := wsx.Accept(wsx.ServerCfg{Mode: spec.Mode, Threshold: spec.Threshold, Offer: spec.Ext, Pipelined: spec.Pipelined})
 		e.track(sv.Conn, sv.Peer, sv.Lib)
 		if err != nil {
 			return nil, err
